@@ -323,7 +323,7 @@ def main(tier, replay=None):
         return 0 if st in ("ok", "skip") else 1
     proof_ok = run.proof_stage()
     site_problem = sites_obligation(run)
-    n = 1500 if thorough else 260
+    n = 5000 if thorough else 260
     bad = []
     for i in range(n):
         rng = run.rng
